@@ -1,5 +1,5 @@
 /-
-  C19 — A Deck written as text parses back to the same Deck (record level).
+  C19 — A Deck written as text parses back to the same Deck (record, keyword and deck level).
 
   Only property statements (one-line proofs from `Proofs/DeckWrite.lean`) and
   non-vacuity examples.  Quantifiers: every schema, every conforming record (`Conf`),
@@ -9,6 +9,8 @@
 import OpmVerif.Proofs.DeckWrite
 import OpmVerif.Proofs.RawConsts
 import OpmVerif.Proofs.KwRoundTrip
+import OpmVerif.Proofs.DeckRoundTrip
+import OpmVerif.Proofs.TokCheck
 
 namespace OpmVerif.Props.C19
 open OpmVerif.Lex OpmVerif.Tok OpmVerif.Scan OpmVerif.DeckWrite OpmVerif.RawKw
@@ -195,5 +197,228 @@ example : (parseKeywordText OpmVerif.DeckIO.conv (fun _ => false) slashKw [demoS
     (writeKeywordBody idFmt false [demoRecord, [[(.dummy, .empty)], [(.str (b "FIELD"), .dflt)], [(.dummy, .empty)],
       [(.int 3, .dflt)], [(.dummy, .empty)], [(.str (b "OPEN"), .dflt)], [(.int 0, .dflt)]], demoRecord])).map
         (fun p => (p.1.length, p.2)) = some (1, [b "'P 1/*' 3* -12 /", b "/"]) := by decide +kernel
+
+
+/-! ### second round: every size class, TITLE, the whole deck -/
+
+section second_round
+open OpmVerif.Deck
+
+/-- **`parse_write_keyword`, every size class that ends by itself** (slash terminated, fixed
+size incl. data keywords, table collection; ordinary and raw-string keywords; with and without
+the line split every `columns = 7` entries): the bytes `DeckKeyword::write` produces after the
+keyword line — records, closing `/` if the keyword has one — go through `clean`, line
+splitting, the keyword assembly state machine, the tokeniser and `ParserKeyword::parse` and
+come back as exactly the records written, with nothing left over.  `RunOk` is the size-class
+condition on the written records (theorems `size_class_*` below), `BodyOk` the condition on
+the tokens (safe inside a line, no line mistaken for the next keyword). -/
+theorem parse_write_keyword (cv : Conv) (fmt : Bytes → Bytes) (flush split closing : Bool) (recog : Bytes → Bool)
+    (k0 : Kw) (hk0 : k0.records = []) (hnf : k0.finished = false) (schemas : List (List Item)) (alt : Bool)
+    (rs : List (List Vals)) (hne : rs ≠ [] ∨ closing = true)
+    (hrun : RunOk k0 (rs.map fun r => emitToks fmt flush false 0 r.flatten) closing)
+    (hbody : BodyOk recog k0.raw split closing (rs.map fun r => emitToks fmt flush false 0 r.flatten))
+    (hrec : ∀ j r, rs[j]? = some r → ∃ items, schemaOf schemas alt j = some items ∧
+      Conf cv fmt items r ∧ r.flatten.length ≤ 2147483647 ∧
+      (pend flush false 0 r.flatten = 0 ∨ r.flatten.length ≤ singlePrefix items)) :
+    parseKeywordText cv recog k0 schemas alt false (bodyText fmt flush split closing rs) =
+      some (rs.map (·.map (·.map (normP fmt))), []) :=
+  parse_write_keyword_text cv fmt flush split closing recog k0 hk0 hnf schemas alt rs hne hrun hbody hrec
+
+/-- slash-terminated keywords (WELSPECS, COMPDAT; raw strings: UDQ, ACTIONX): the run is fine
+iff every record emits a token — a record of defaults only is written as a bare `/` and
+ends the keyword (finding `C19.alldefault_record`). -/
+theorem size_class_slash (tss : List (List Bytes)) (k : Kw) (hk : IsSlash k) (h : ∀ t ∈ tss, t ≠ []) :
+    RunOk k tss true :=
+  runOk_slash tss k hk h
+
+/-- fixed-size keywords (EQUIL with EQLDIMS, INCLUDE, data keywords such as PORO = one
+record): exactly as many records as the size, each emitting a token; no closing `/`. -/
+theorem size_class_fixed (tss : List (List Bytes)) (k : Kw) (n : Nat) (hk : IsFixed k n) (hne : tss ≠ [])
+    (h : ∀ t ∈ tss, t ≠ []) (hlen : k.records.length + tss.length = n) : RunOk k tss false :=
+  runOk_fixed tss k n hk hne h hlen
+
+/-- the same without the condition on the records, for keywords without a smaller minimum
+size (`min_size` absent): a bare `/` does not terminate them, it is read as an empty record. -/
+theorem size_class_fixed_alldefault_ok (tss : List (List Bytes)) (k : Kw) (n : Nat) (hk : IsFixed k n)
+    (hmin : k.minSize = n) (hne : tss ≠ []) (hlen : k.records.length + tss.length = n) : RunOk k tss false :=
+  runOk_fixed_min tss k n hk hmin hne hlen
+
+/-- table collections (PVTO, PVTG): the records that emit no token are exactly the
+`numTables - 1` table separators (`ParserKeyword::parse` makes the all-default record of an
+empty raw record, `DeckOutput` writes it back as the bare `/`), then the closing `/`. -/
+theorem size_class_table (tss : List (List Bytes)) (k : Kw) (hk : IsTable k)
+    (h : k.curTables + emptyCount tss + 1 = k.numTables) : RunOk k tss true :=
+  runOk_table tss k hk h
+
+/-- double-slash keywords (double-record keywords): blocks of records, each closed by the
+empty record, no two empty records in a row, then the closing `/`. -/
+theorem size_class_double (tss : List (List Bytes)) (k : Kw) (hk : IsDbl k) (h : DblOk k.tempFinished tss) :
+    RunOk k tss true :=
+  runOk_dbl tss k hk h
+
+/-- double-record keywords: the empty `DeckRecord` that closes a block comes back as such,
+and the record numbering restarts behind it. -/
+theorem parse_write_keyword_double_record (cv : Conv) (fmt : Bytes → Bytes) (flush split : Bool) (recog : Bytes → Bool)
+    (k0 : Kw) (hk0 : k0.records = []) (schemas : List (List Item)) (alt : Bool) (rs : List (List Vals)) (R : Bytes)
+    (hrun : RunOk k0 (rs.map fun r => emitToks fmt flush false 0 r.flatten) true)
+    (hbody : BodyOk recog k0.raw split true (rs.map fun r => emitToks fmt flush false 0 r.flatten))
+    (hrec : DblConf (fun r => emitToks fmt flush false 0 r.flatten)
+      (fun j r => ∃ items, schemaOf schemas alt j = some items ∧ Conf cv fmt items r ∧ r.flatten.length ≤ 2147483647 ∧
+        (pend flush false 0 r.flatten = 0 ∨ r.flatten.length ≤ singlePrefix items)) 0 rs) :
+    ∃ kf, feedLines recog k0 [] [] (splitLines (fastClean (bodyText fmt flush split true rs ++ R))) =
+        some (kf, splitLines (fastClean R)) ∧ kf.finished = true ∧
+      parseRecordsDouble cv schemas alt 0 kf.records = some (rs.map (·.map (·.map (normP fmt)))) :=
+  parse_write_keyword_double cv fmt flush split recog k0 hk0 schemas alt rs R hrun hbody hrec
+
+/-- keywords of unknown size (VFPPROD, …; written without a closing `/`): the written records
+are assembled into exactly those records; the keyword ends at the end of the input or at the
+line of the next recognised keyword, which stays in the input. -/
+theorem assemble_written_unknown_size (fmt : Bytes → Bytes) (flush split : Bool) (recog : Bytes → Bool) (k0 : Kw)
+    (hk : IsUnknown k0) (rs : List (List Vals)) (hne : rs ≠ [])
+    (hemit : ∀ r ∈ rs, emitToks fmt flush false 0 r.flatten ≠ [])
+    (hbody : BodyOk recog k0.raw split false (rs.map fun r => emitToks fmt flush false 0 r.flatten))
+    (R : Bytes) (next : Bytes) (rest : List Bytes)
+    (hR : splitLines (fastClean R) = [] ∨ splitLines (fastClean R) = [[]] ∨
+      (splitLines (fastClean R) = next :: rest ∧ next ≠ eofMark ∧ next.isEmpty = false ∧
+        recog (makeDeckName next) = true)) :
+    ∃ kf, feedLines recog k0 [] [] (splitLines (fastClean (bodyText fmt flush split false rs ++ R))) =
+        some (kf, if splitLines (fastClean R) = [[]] then [] else splitLines (fastClean R)) ∧ kf.finished = true ∧
+      kf.records = k0.records ++ rs.map fun r => emitToks fmt flush false 0 r.flatten :=
+  assemble_written_unknown fmt flush split recog k0 hk rs hne hemit hbody R next rest hR
+
+/-- the line split of data keywords: a written record, with or without the split, with or
+without tokens, cleans to the lines of its chunks (`recLines`); the text behind it is cleaned
+on its own. -/
+theorem written_record_lines (split : Bool) (ts : List Bytes) (h : ∀ t ∈ ts, CleanSafe t ∧ NoNL t) (R : Bytes) :
+    splitLines (fastClean (recordText split ts ++ R)) = recLines (chunksOf split ts) ++ splitLines (fastClean R) :=
+  lines_recordText split ts h R
+
+/-- TITLE: `TITLE\n  <entries>\n` as `write_TITLE` writes it is read back — the line after
+TITLE is the record whatever it holds — from any keyword boundary, in front of any text. -/
+theorem parse_write_title (cv : Conv) (fmt : Bytes → Bytes) (flush : Bool) (tbl : Table) (recog : Bytes → Bool)
+    (files : List (Bytes × Bytes) → Bytes → Option Bytes) (fuel : Nat) (al : List (Bytes × Bytes))
+    (deck : DeckT) (lead : Bytes) (r : List Vals) (R : Bytes) (h : TitleConf cv fmt flush tbl deck lead r) :
+    parseLoop cv tbl recog files (fuel + 1) al deck (splitLines (fastClean (titleText fmt lead r ++ R))) =
+      parseLoop cv tbl recog files fuel al (deck ++ [⟨nameTITLE, normRecords fmt [r]⟩]) (splitLines (fastClean R)) :=
+  parseLoop_written_title cv fmt flush tbl recog files fuel al deck lead r R h
+
+/-- **`parse_write_deck`**: `parseDeck (writeDeck d) = d` for every deck that `Conforms` — by
+induction over the keyword list; each keyword conforms relative to the keywords before it as
+they come back from the parser (sizes taken from TABDIMS, EQLDIMS, … are those of the deck
+being rebuilt).  What `Conforms` excludes are the recorded findings: a record of defaults only
+inside a slash-terminated or fixed-size keyword (`C19.alldefault_record`: `RunOk` fails), code
+keywords (`C19.code_keyword_end_token`: printed without their end token; not in the model),
+floating point tokens that do not read back (`C19.double_overflow`: `Conf`); and, as a limit
+of this theorem, keywords of unknown size and double-record keywords (covered at keyword level
+above). -/
+theorem parse_write_deck (cv : Conv) (fmt : Bytes → Bytes) (flush : Bool) (tbl : Table) (recog : Bytes → Bool)
+    (files : List (Bytes × Bytes) → Bytes → Option Bytes) (ks : List DK)
+    (h : Conforms cv fmt flush tbl recog [] ks) :
+    parseDeckText cv tbl recog files (ks.length + 2) (deckText fmt flush ks) = some (ks.map (DK.result fmt)) :=
+  OpmVerif.Deck.parse_write_deck cv fmt flush tbl recog files ks h
+
+/-- the text `parse_write_deck` is about is what the literal mirror of `DeckOutput` /
+`Deck::write` writes (the mirror is compared byte for byte with the real
+`operator<<(std::ostream&, const Deck&)` in the correspondence), TITLE included. -/
+theorem deck_writer_mirror_writes_deckText (fmt : Bytes → Bytes) (ks : List KwOut) (st : OutState) (hdc : st.dc = 0)
+    (htitle : ∀ k ∈ ks, k.name = titleName → ∀ p ∈ (k.records.headD []).flatten, p.2 = .deck) :
+    writeDeckM fmt true st ks = deckText fmt true (toDKs fmt st ks) :=
+  writeDeckM_eq_deckText fmt ks st hdc htitle
+
+/-! non-vacuity: one keyword of each class -/
+
+def fixedKw (n : Nat) : Kw :=
+  { sizeType := .fixed, raw := false, records := [], minSize := n, fixedSize := n,
+    numTables := 0, curTables := 0, tempFinished := false, finished := n == 0 }
+def tableKw (n : Nat) : Kw :=
+  { sizeType := .tableCollection, raw := false, records := [], minSize := n, fixedSize := 0,
+    numTables := n, curTables := 0, tempFinished := false, finished := false }
+def dblKw : Kw :=
+  { sizeType := .doubleSlash, raw := false, records := [], minSize := 0, fixedSize := 0,
+    numTables := 0, curTables := 0, tempFinished := false, finished := false }
+def rawSlashKw : Kw := { slashKw with raw := true }
+
+example : mkKw .fixed false none 2 = some (fixedKw 2) ∧ mkKw .tableCollection false none 2 = some (tableKw 2) ∧
+    mkKw .doubleSlash false none 0 = some dblKw ∧ mkKw .slashTerminated true none 0 = some rawSlashKw := by decide
+
+/-- a data keyword (one record, size ALL) with ten values: two lines after the split. -/
+def dataRecord : List Vals := [([1, 2, 3, 4, 5, 6, 7, 8, 9, 10] : List Int).map fun i => (Val.int i, Status.deck)]
+
+example : bodyText idFmt true true false [dataRecord] = b " 1 2 3 4 5 6 7\n 8 9 10 /\n" := by decide +kernel
+example : (chunksOf true (emitToks idFmt true false 0 dataRecord.flatten)).map (·.length) = [7, 3] := by decide +kernel
+example : RunOk (fixedKw 1) ([dataRecord].map fun r => emitToks idFmt true false 0 r.flatten) false :=
+  runOk_fixed _ _ 1 ⟨rfl, rfl, rfl⟩ (by decide) (by decide +kernel) (by decide)
+example : BodyOk (fun _ => false) false true false ([dataRecord].map fun r => emitToks idFmt true false 0 r.flatten) :=
+  bodyOk_of_B (by decide +kernel)
+example : parseKeywordText OpmVerif.DeckIO.conv (fun _ => false) (fixedKw 1) [[⟨.int, true, none⟩]] false false
+    (bodyText idFmt true true false [dataRecord]) = some ([dataRecord], []) := by decide +kernel
+
+/-- a table collection with two tables: the record without tokens is the separator. -/
+def pvtoSchema : List (List Item) := [[⟨.int, false, none⟩, ⟨.int, true, some (.int 0)⟩]]
+def pvtoRecords : List (List Vals) :=
+  [[[(.int 1, .deck)], [(.int 10, .deck), (.int 20, .deck)]], [[(.int 2, .deck)], [(.int 30, .deck)]],
+   [[(.dummy, .empty)], []],
+   [[(.int 3, .deck)], [(.int 40, .deck)]]]
+
+example : bodyText idFmt true false true pvtoRecords = b " 1 10 20 /\n 2 30 /\n /\n 3 40 /\n/\n" := by decide +kernel
+example : RunOk (tableKw 2) (pvtoRecords.map fun r => emitToks idFmt true false 0 r.flatten) true :=
+  runOk_table _ _ ⟨rfl, rfl, rfl⟩ (by decide +kernel)
+example : BodyOk (fun _ => false) false false true (pvtoRecords.map fun r => emitToks idFmt true false 0 r.flatten) :=
+  bodyOk_of_B (by decide +kernel)
+example : parseKeywordText OpmVerif.DeckIO.conv (fun _ => false) (tableKw 2) pvtoSchema false false
+    (bodyText idFmt true false true pvtoRecords) = some (pvtoRecords, []) := by decide +kernel
+
+/-- a raw-string keyword (UDQ-like): tokens may hold slashes, the last slash ends the record. -/
+def udqRecords : List (List Vals) :=
+  [[[(.raw (b "DEFINE"), .deck)], [(.raw (b "WUX"), .deck)], [(.raw (b "WOPR/2"), .deck), (.raw (b "/"), .deck), (.raw (b "'W 1'"), .deck)]]]
+
+example : bodyText idFmt true false true udqRecords = b " DEFINE WUX WOPR/2 / 'W 1' /\n/\n" := by decide +kernel
+example : RunOk rawSlashKw (udqRecords.map fun r => emitToks idFmt true false 0 r.flatten) true :=
+  runOk_slash _ _ ⟨rfl, rfl, rfl⟩ (by decide +kernel)
+example : BodyOk (fun _ => false) true false true (udqRecords.map fun r => emitToks idFmt true false 0 r.flatten) :=
+  bodyOk_of_B (by decide +kernel)
+example : parseKeywordText OpmVerif.DeckIO.conv (fun _ => false) rawSlashKw
+    [[⟨.rawString, false, none⟩, ⟨.rawString, false, none⟩, ⟨.rawString, true, none⟩]] false false
+    (bodyText idFmt true false true udqRecords) = some (udqRecords, []) := by decide +kernel
+
+/-- a double-record keyword: two blocks, each closed by the empty record. -/
+def dblRecords : List (List Vals) := [[[(.int 1, .deck)]], [[(.int 2, .deck)]], [], [[(.int 3, .deck)]], []]
+
+example : bodyText idFmt true false true dblRecords = b " 1 /\n 2 /\n /\n 3 /\n /\n/\n" := by decide +kernel
+example : RunOk dblKw (dblRecords.map fun r => emitToks idFmt true false 0 r.flatten) true :=
+  runOk_dbl _ _ ⟨rfl, rfl, rfl⟩ (by decide +kernel)
+example : parseKeywordText OpmVerif.DeckIO.conv (fun _ => false) dblKw [[⟨.int, false, none⟩], [⟨.int, false, none⟩]] false true
+    (bodyText idFmt true false true dblRecords) = some (dblRecords, []) := by decide +kernel
+
+/-- a fixed-size keyword without a smaller minimum size is not ended by a bare `/`: a record
+of defaults only comes back (EQUIL-like, two records, the first one all defaults). -/
+example : RunOk (fixedKw 2) [[], [b "1"]] false := runOk_fixed_min _ _ 2 ⟨rfl, rfl, rfl⟩ rfl (by decide) (by decide)
+example : parseKeywordText OpmVerif.DeckIO.conv (fun _ => false) (fixedKw 2) [[⟨.int, false, some (.int 7)⟩]] false false
+    (bodyText idFmt true false false [[[(.int 7, .dflt)]], [[(.int 1, .deck)]]]) =
+      some ([[[(.int 7, .dflt)]], [[(.int 1, .deck)]]], []) := by decide +kernel
+
+/-- a small deck: TABDIMS-like sizes, a table collection sized by it, a data keyword, TITLE. -/
+def deckTable : Table :=
+  [(b "TABDIMS", ⟨.fixed 1, false, none, [[⟨.int, false, some (.int 1)⟩, ⟨.int, false, some (.int 1)⟩]], false, false⟩),
+   (b "PVTO", ⟨.other (b "TABDIMS") 1 true, false, none, pvtoSchema, false, false⟩),
+   (b "PORO", ⟨.fixed 1, false, none, [[⟨.int, true, none⟩]], false, false⟩),
+   (b "OIL", ⟨.fixed 0, false, none, [], false, false⟩),
+   (b "TITLE", ⟨.fixed 1, false, none, [[⟨.string, true, none⟩]], false, false⟩)]
+
+def demoDeck : List DK :=
+  [.kw ⟨b "OIL", false, false, []⟩,
+   .kw ⟨b "TABDIMS", false, false, [[[(.int 1, .dflt)], [(.int 2, .deck)]]]⟩,
+   .title [] [[(.str (b "My"), .deck), (.str (b "deck 1"), .deck)]],
+   .kw ⟨b "PVTO", false, true, pvtoRecords⟩,
+   .kw ⟨b "PORO", true, false, [dataRecord]⟩]
+
+example : deckText idFmt true demoDeck =
+    b "OIL\nTABDIMS\n 1* 2 /\nTITLE\n  'My' 'deck 1'\nPVTO\n 1 10 20 /\n 2 30 /\n /\n 3 40 /\n/\nPORO\n 1 2 3 4 5 6 7\n 8 9 10 /\n" := by
+  decide +kernel
+
+example : parseDeckText OpmVerif.DeckIO.conv deckTable (fun n => (lookup deckTable n).isSome) (fun _ _ => none) 7
+    (deckText idFmt true demoDeck) = some (demoDeck.map (DK.result idFmt)) := by decide +kernel
+
+end second_round
 
 end OpmVerif.Props.C19
